@@ -1,0 +1,9 @@
+//go:build verif
+
+package config
+
+// VerifParse is config.parse: the arguments config.Load strips before the flag set sees them
+// (read-only export for the verification harness, property C15).
+func VerifParse(args []string) (cmdline []string, path string, version bool, err error) {
+	return parse(args)
+}
